@@ -168,8 +168,28 @@ func Now() int64 { return time.Now().Unix() }
 // operation; natively a no-op).
 func FreezeClock(on bool) {}
 
-// Observe records a value for predicted-vs-native comparison.
-func Observe(label string, v any) {}
+// Observe records a value for predicted-vs-native comparison: the engine
+// evaluates it under the witness model, the native run prints it, the check
+// compares both (integers, bools, strings and byte slices).
+func Observe(label string, v any) {
+	if cur == nil {
+		return
+	}
+	var s string
+	switch x := v.(type) {
+	case bool:
+		s = fmt.Sprint(x)
+	case string:
+		s = hex.EncodeToString([]byte(x))
+	case []byte:
+		s = hex.EncodeToString(x)
+	case int, int8, int16, int32, int64, uint, uint8, uint16, uint32, uint64:
+		s = fmt.Sprint(x)
+	default:
+		return
+	}
+	fmt.Printf("VPOBS %d %s=%s\n", cur.ID, label, s)
+}
 
 // RunReplay runs the recorded cases against the natively compiled harnesses.
 func RunReplay(t *testing.T, fns map[string]func()) {
